@@ -361,3 +361,119 @@ func strandAtom(info *types.Info, atom ast.Expr, head, tail types.Object) int {
 	}
 	return 0
 }
+
+// ConcatOffset decides CONCAT-OFFSET: the features of every later piece are
+// moved by the number of residues already accumulated, measured before the
+// piece's own residues are appended.
+func ConcatOffset(p *core.Prog, r *core.Report) {
+	r.Rule("CONCAT-OFFSET", "in gts.Concat the features of each piece after the first are rewritten with Expand(0, len(acc)) (or Shift(0, len(acc))) where acc is the byte accumulator that starts as a copy of the first piece's bytes and receives the piece's bytes with append only after the piece's feature loop", 1)
+	info := p.Info(core.PkgGts)
+	fd := p.FuncDecl(core.PkgGts, "Concat")
+	if fd == nil || fd.Body == nil {
+		r.Und("CONCAT-OFFSET", "gts.Concat|anchor", "-", "anchor-unresolved")
+		return
+	}
+	r.Fn("gts.Concat")
+	key := "gts.Concat"
+	var outer *ast.RangeStmt
+	var inner *ast.RangeStmt
+	ast.Inspect(fd.Body, func(n ast.Node) bool {
+		rs, ok := n.(*ast.RangeStmt)
+		if !ok {
+			return true
+		}
+		if _, isF := isFeaturesCall(info, rs.X); isF {
+			if outer != nil && inner == nil && outer.Pos() < rs.Pos() && rs.End() <= outer.End() {
+				inner = rs
+			}
+			return true
+		}
+		if outer == nil {
+			if sl, ok := info.TypeOf(rs.X).Underlying().(*types.Slice); ok && core.NamedOf(sl.Elem()) == core.PkgGts+".Sequence" {
+				outer = rs
+			}
+		}
+		return true
+	})
+	if outer == nil || inner == nil {
+		r.Und("CONCAT-OFFSET", key, p.Pos(fd.Pos()), "cannot find the loop over the later pieces and its feature loop")
+		return
+	}
+	piece := core.ObjOf(info, outer.Value)
+	// the accumulator: acc = append(acc, piece.Bytes()...) at the top level of the outer loop
+	var acc types.Object
+	var appendPos token.Pos
+	for _, st := range outer.Body.List {
+		as, ok := st.(*ast.AssignStmt)
+		if !ok || len(as.Lhs) != 1 || len(as.Rhs) != 1 {
+			continue
+		}
+		c, ok := ast.Unparen(as.Rhs[0]).(*ast.CallExpr)
+		if !ok || !core.IsBuiltin(info, c, "append") || len(c.Args) != 2 || !c.Ellipsis.IsValid() {
+			continue
+		}
+		bc, ok := ast.Unparen(c.Args[1]).(*ast.CallExpr)
+		if !ok || len(bc.Args) != 0 {
+			continue
+		}
+		sel, ok := bc.Fun.(*ast.SelectorExpr)
+		if !ok || sel.Sel.Name != "Bytes" || core.ObjOf(info, sel.X) != piece {
+			continue
+		}
+		if o := core.ObjOf(info, as.Lhs[0]); o != nil && o == core.ObjOf(info, c.Args[0]) {
+			acc, appendPos = o, as.Pos()
+		}
+	}
+	if acc == nil {
+		r.Bad("CONCAT-OFFSET", key, p.Pos(outer.Pos()), "no byte accumulator receives each piece's bytes at the top level of the loop over the pieces")
+		return
+	}
+	if appendPos < inner.End() {
+		r.Bad("CONCAT-OFFSET", key, p.Pos(appendPos), "the piece's residues are appended before its features are moved: the offset then includes the piece itself and every feature lands one piece too far")
+		return
+	}
+	// the transform inside the inner loop
+	var tr *ast.CallExpr
+	for _, c := range core.Calls(inner.Body) {
+		if fn := core.Callee(info, c); fn != nil && (fn.Name() == "Expand" || fn.Name() == "Shift") && len(c.Args) == 2 {
+			tr = c
+		}
+	}
+	if tr == nil {
+		r.Bad("CONCAT-OFFSET", key, p.Pos(inner.Pos()), "the features of a later piece are not moved at all")
+		return
+	}
+	z, isZ := core.ConstInt(info, tr.Args[0])
+	lc, isL := ast.Unparen(tr.Args[1]).(*ast.CallExpr)
+	if !isZ || z != 0 || !isL || !core.IsBuiltin(info, lc, "len") || core.ObjOf(info, lc.Args[0]) != acc {
+		r.Bad("CONCAT-OFFSET", key, p.Pos(tr.Pos()), "the features of a later piece are moved by `"+types.ExprString(tr.Args[1])+"` from `"+types.ExprString(tr.Args[0])+"`, not by len of the accumulated residues from 0")
+		return
+	}
+	// acc starts as a copy of the head's bytes
+	asg := core.Assigns(info, fd.Body)
+	startOK := false
+	for _, a := range asg[acc] {
+		if a.RHS == nil || a.Pos >= outer.Pos() {
+			continue
+		}
+		found := false
+		ast.Inspect(a.RHS, func(n ast.Node) bool {
+			if c, ok := n.(*ast.CallExpr); ok && len(c.Args) == 0 {
+				if sel, ok := c.Fun.(*ast.SelectorExpr); ok && sel.Sel.Name == "Bytes" {
+					if ix, ok := core.OriginBefore(info, asg, sel.X).(*ast.IndexExpr); ok {
+						if k, ok := core.ConstInt(info, ix.Index); ok && k == 0 {
+							found = true
+						}
+					}
+				}
+			}
+			return true
+		})
+		startOK = startOK || found
+	}
+	if !startOK {
+		r.Bad("CONCAT-OFFSET", key, p.Pos(outer.Pos()), "the accumulator does not start as the residues of the first piece")
+		return
+	}
+	r.Ok("CONCAT-OFFSET", key, p.Pos(tr.Pos()), "Expand(0, len(acc)) before acc = append(acc, piece.Bytes()...)")
+}
